@@ -116,7 +116,9 @@ inductive PMod where
   | pairAdapters (ads1 ads2 : List Matchable) (action : Action) (first1 first2 : Bool)
   | pairedRename (tmpl1 tmpl2 : List Tok)     -- `PairedEndRenamer` (the CLI passes the same template twice)
 
-def namesOf (ads : List Matchable) : Names := ads.map Matchable.name
+/-- adapter number ↦ name: the entries of the `MultipleAdapters` list by position, followed by the members of its index objects
+    (numbered from `ads.length` on, prefix index first — see `Assembly.regroup`) -/
+def namesOf (ads : List Matchable) : Names := ads.map Matchable.name ++ ads.flatMap Matchable.memberNames
 
 def cutterOpt (c : Option Cutter) (rd : Read) : Except Err (Read × List AnyMatch × Read) :=
   match c with
@@ -276,7 +278,9 @@ def wildcardsOf (adapterSeq : Bytes) (r : MatchRec) : Bytes :=
 def adapterSeqOf (ads : List Matchable) (i : Nat) : Bytes :=
   match ads[i]? with
   | some (.single a) => a.seq
-  | _ => []
+  | some _ => []
+  | none =>      -- a member of an index object (numbered after the list entries, as in `namesOf`)
+    ((ads.flatMap fun a => match a with | .indexed ix _ => ix.adapters.map (·.seq) | _ => [])[i - ads.length]?).getD []
 
 /-- result of a single-end step: `none` = read consumed -/
 def stepS (ads : List Matchable) (idx : Nat) : Step → Read → Info → Except Err (Option Read × List Event)
